@@ -329,7 +329,7 @@ pub fn run(rep: &mut Report) {
         shrunk: BTreeMap::new(),
     };
     let mut rng = Rng::new(rep.seed ^ 0xC13);
-    let n = rep.budget(2_000, 10);
+    let n = rep.budget(1_600, 12);
     let html_every = 4;
     let mut reqs: Vec<String> = vec![];
     let mut pend: Vec<(usize, &'static str, String, bool)> = vec![]; // case index, writer, impl canon, oracle failed
